@@ -238,4 +238,5 @@ type c18Case struct {
 	Compose *c18Graph `json:"compose,omitempty"`
 	Str     c18s      `json:"str,omitempty"`
 	Known   bool      `json:"known_stream,omitempty"`
+	Look    int       `json:"lookalike_pct,omitempty"` // how the input was generated (information only)
 }
